@@ -3,7 +3,7 @@ Silent entries are the equivalent / out-of-statement variants listed in DESIGN.m
 import json, os, re, subprocess, sys
 HERE = os.path.dirname(os.path.abspath(__file__))
 SILENT = ["tm_missing_nocache", "mro_missing_direct", "recode_ovld_self", "get_no_compile", "closure_wrap_names_sorted",
-          "c10_single_handler_not_exclusive", "c05_update_docs_only", "c04_errors_sticky_first", "conformer_dropped",
+          "c10_single_handler_not_exclusive", "c04_errors_sticky_first", "conformer_dropped",
           "extend_super_flag_ignored", "prepare_mixins_all", "dep_issupertype_dep_true",
           "funcdep_lt_swapped", "startswith_in", "variant_priority_dropped", "refactor_unregister_helper",
           "mtm_register_errors_rebound", "<unchanged>"]
